@@ -668,10 +668,74 @@ def bound_kernel_rules(ctx):
     ctx.check(must_pass_v(b, some_bb, {header}, via), R + '/every-term-counts', 'T-LOOPMUST', b.name, 'a term with a non-zero coefficient can be skipped', b.site(nextc.bb))
 
 
+def integer_hull_rules(ctx):
+    """Bound::as_integer_bound, the rounding both the infeasible / always-satisfied verdicts and the slack range of `convert` go through:
+    the lower end is rounded UP and the upper end DOWN after widening by a tolerance that absorbs the rounding noise of the interval
+    evaluation.  Structural clause (the numerics are not decided): every ceil / floor argument is `end -/+ t` with the matching end of
+    self and t a positive CONSTANT (literal or named const) not larger than 1e-6 — never a value computed from the bound's own ends
+    (a relative tolerance vanishes at an end that is 0 up to noise, and 0 + 4e-16 rounds up to 1).
+       ok         (self.lower - t).ceil(), (self.upper + t).floor()    also `end + (-t)`, `t + end`, f64::ceil(..), ends / t hoisted into lets
+       violation  t depends on a place or a call; t <= 0 or t > 1e-6; ceil applied to the upper end / floor to the lower end; no rounding
+       undecided  any other argument shape (weaker clause: the argument reads that end of self and no other place)"""
+    R = 'C13.bound'
+    b = ctx.method(R + '/integer-hull/anchor', 'bound::Bound', 'as_integer_bound')
+    if b is None: return
+    def const_val(e):
+        """value of a constant f64 expression (literal, named const, negation), else None"""
+        e = T.arith(e)
+        if e[0] == 'un' and e[1] == 'Neg':
+            v = const_val(e[2]); return None if v is None else -v
+        if e[0] != 'const': return None
+        v = T.f64_const(e[1])
+        if v is None:
+            nm = e[1].strip()
+            if nm.startswith('const '): nm = nm[6:]
+            kv = ctx.F.consts.get(nm)
+            if kv is None:
+                hits = [x for n, x in ctx.F.consts.items() if n.endswith('::' + nm.split('::')[-1])]
+                kv = hits[0] if len(hits) == 1 else None
+            if kv is not None: v = T.f64_const(str(kv[1]) if str(kv[1]).endswith('f64') else str(kv[1]) + 'f64')
+        return v
+    def end_of(e):
+        e = T.strip_wrappers(e)
+        if e[0] == 'place' and e[1] == 1 and e[2] and e[2][-1][1] in ('lower', 'upper') and e[2][-1][0].endswith('bound::Bound'): return e[2][-1][1]
+        return None
+    has_value = lambda e: any(x[0] in ('place', 'local', 'call', 'proj') for x in T.expr_walk(e))
+    bad = []; und = []; seen = set()
+    for c in b.calls:
+        if c.item not in ('ceil', 'floor') or not re.search(r'f64>::(ceil|floor)$', c.name) or not c.args: continue
+        want_end, sign = ('lower', -1) if c.item == 'ceil' else ('upper', +1)
+        e = T.arith(T.expr(b, c.args[0], depth=20))
+        end = None; t = None; dep = False
+        if e[0] == 'bin' and e[1] in ('Add', 'Sub'):
+            x, y = e[2], e[3]
+            if end_of(x) is not None: end = end_of(x); k = y; ks = +1 if e[1] == 'Add' else -1
+            elif end_of(y) is not None and e[1] == 'Add': end = end_of(y); k = x; ks = +1
+            if end is not None:
+                if has_value(k): dep = True
+                else:
+                    v = const_val(k); t = None if v is None else sign * ks * v         # the amount by which the end is WIDENED
+        if end is None:
+            ends = {end_of(x) for x in T.expr_walk(e)} - {None}
+            und.append((c, 'argument of %s not of the form end -/+ t' % c.item, ends == {want_end} and not any(x[0] == 'call' for x in T.expr_walk(e)))); continue
+        seen.add((c.item, end))
+        if end != want_end: bad.append((c, '%s is applied to the %s end' % (c.item, end)))
+        elif dep: bad.append((c, 'the tolerance of %s is computed from a value (not a constant)' % c.item))
+        elif t is None: und.append((c, 'tolerance of %s is not a recognisable constant' % c.item, True))
+        elif not (0.0 < t <= 1.0000001e-6): bad.append((c, 'the %s end is widened by %r, expected a constant in (0, 1e-6]' % (end, t)))
+    for need in (('ceil', 'lower'), ('floor', 'upper')):
+        if need not in seen and not und: bad.append((None, 'the %s end is not rounded with %s' % (need[1], need[0])))
+    rule = R + '/integer-hull/tolerance'
+    if bad: ctx.bad(rule, 'T-CONST', b.name, bad[0][1], b.site(bad[0][0].bb) if bad[0][0] is not None else b.site())
+    elif und: undecided_weak(ctx, rule, 'T-CONST', b.site(und[0][0].bb), und[0][1], all(w for _, _, w in und), b.name, 'the rounded value is not just that end of self and constants')
+    else: ctx.ok(rule, 'T-CONST', b.site(), roundings=len(seen))
+
+
 def check(ctx):
     bound_kernel_rules(ctx)
+    integer_hull_rules(ctx)
     a = slack_rules(ctx, 'convert_inequality_to_equality_with_integer_slack', True)
     b = slack_rules(ctx, 'add_integer_slack_to_inequality', False)
     # sibling agreement on the shared guard set
     ctx.check(a == b, 'C13.sibling/guard-set', 'T-SIBLING', 'convert_… vs add_…', 'guard sets differ: convert=%s add=%s' % (sorted(a.items()), sorted(b.items())))
-    ctx.floor('C13.convert', 46); ctx.floor('C13.add', 45); ctx.floor('C13.bound', 3)
+    ctx.floor('C13.convert', 46); ctx.floor('C13.add', 45); ctx.floor('C13.bound', 4)
